@@ -1,9 +1,133 @@
+"""Per-property manifest texts.  `proved` lists what the obligations cover; everything else the
+property says is decided only by the bounded stand-in (labelled bounded in the evidence)."""
+
+COMMON_NOTE = (' Trusted base: the home-built verifier pyvc (self-tests, mutants and the cross-check of two solver '
+               'families are the mitigation), z3 5.1 / cvc5 1.0.3, CPython and its re engine; Python semantics '
+               'assumed as listed in the evidence (mathematical ints, str as code-point sequences, uninterpreted '
+               'str.lower/strip with stated axioms, value semantics for uniquely owned containers). The bounded '
+               'stand-in compares the real code at the observation point with an independent executable reference '
+               'over a stated finite input space; it is reported under coverage.bounded and never counted as proof.')
+
+
+def T(category, technique, text, note):
+    return {'category': category, 'technique': technique, 'text': text, 'note': note + COMMON_NOTE}
+
+
+PV = 'contract-based deductive verification (pyvc: symbolic execution of the real AST against sidecar contracts, VCs to cvc5/z3)'
+BOUNDED_ONLY = ('No function of this property is under a discharged contract yet: the run is decided by the bounded '
+                'stand-in only (differential check of the real code against an independent executable reference at the '
+                'observation point, stated bound in the evidence). Level other, not proof.')
+
 TEXTS = {
- 'C04': {
-  'category': 'proof',
-  'technique': 'contract-based deductive verification of substitution.py (symbolic execution of the real AST, VCs to cvc5/z3) + automaton equivalence for the name regex',
-  'text': 'The real bodies of substitution._split, substitute and isname are re-read from /repo on every run and verified, for all strings and all mappings, against specification functions written from the statement (split_spec/split_err: the four constructs and the four malformed cases; subst_spec: left-to-right fold without rescanning; loop invariant prepend(result, Subst(rest)) == Subst(s) with variant len(rest)). The exceptional postconditions fix the error class, .source and .name. The regex _name_re is proved (all lengths, leftmost-first semantics) to match exactly a letter/underscore start and to end at the maximal munch, which is the assumed contract of _name_match.',
-  'note': 'Assumed: os.getenv(n) returns the environment value or None; dict.get; CPython re implements leftmost-first matching; str.lower is uninterpreted (shared by code and spec); the identity clause "returned as is" is proved as equality of values, not object identity; name_len (native definition) vs the marker regex spec is cross-checked exhaustively to length 5 in the self-test. A bounded stand-in (exhaustive strings to length 6 over the 10-letter alphabet vs an independent reference) runs alongside and is reported under bounded, never as proof.',
- },
+ 'C01': T('proof', PV + '; bounded stand-in for the matcher functions not yet under contract',
+          'Proved for all inputs and heaps: the slot search SectionType.getsectioninfo returns the first child, in schema order, '
+          'that reacts to a header (type, name) exactly as the specification slot_case/slot_search says (fixed name claims by name '
+          'then type; */+ slot claims by type or registered implementer; name rule), with the loop invariant "remaining search == '
+          'whole search"; the name rule isAllowedName/allowUnnamed; ismulti/issection/isabstract; gettype (unknown type rejected), '
+          'getsubtype; ValueInfo.convert (ValueError -> DataConversionError). The key routing, slot filling and completion logic of '
+          'matcher.py (addValue, addSection, finish) is NOT under contract yet and is decided by the bounded stand-in '
+          '(150 000 generated schema/text pairs per quick run against an independent reference).',
+          'Assumed: datatype and key-type callables are pure functions that return or raise ValueError; the representation '
+          'invariant children_wf of section types (established by schema construction, C10) is assumed at entry. Readings where the '
+          'statement is silent (DESIGN.md 4/5): slots are searched in schema order and the first slot that claims by type decides.'),
+ 'C02': T('other', 'bounded stand-in (differential vs independent reference); one function under contract',
+          'Only ValueInfo.convert (converted value = datatype(value), conversion error carries value and position) is proved. The '
+          'value tree itself (matcher.finish/constuct, SectionValue) is decided by the bounded stand-in: recursive comparison of '
+          'getSectionAttributes()/values/name/type with an independent reference tree for ~110 000 accepted texts per quick run, '
+          'including aliasing of default containers.',
+          'Reading: the default attribute name is the normalised key name with "-" -> "_" (case of the attribute name is left '
+          'unspecified by the statement).'),
+ 'C03': T('proof', PV + ' + leftmost-first automaton equivalence for the two line regexes (all string lengths)',
+          'All 13 functions of cfgparser.ZConfigParser are verified against the line grammar written from the statement: nextline '
+          '(strip, line count), the dispatch of parse (ghost assertions at every branch: skip only blank/# lines, </ closer, < opener, '
+          '% directive, else key/value, with the exact slices handed on), handle_key_value (key = maximal run of non-whitespace '
+          'non-parenthesis characters, absent value = "", value $-expanded, recorded with line and URL), handle_directive (exactly '
+          'define/import/include, each with an argument), start_section/end_section (lower-cased type and name, empty form = open + '
+          'close, stack push/pop, closer must match the innermost open type), parse (own empty stack on entry, all sections closed and '
+          'input exhausted on normal exit, loop invariant and variant). The regexes _keyvalue_rx and _section_start_rx are proved, for '
+          'strings of every length and with CPython\'s leftmost-first semantics, to match exactly the specified shapes and to place every '
+          'group boundary where the specification primitives kv_key/kv_value/sec_type/sec_name say.',
+          'Assumed: readline() returns the next line incl. its newline or ""; the interface contracts of the parser context and of '
+          'section.addValue (proved separately for the real loader/matcher only where listed). The fold "whole text = sequence of '
+          'line steps" is not mechanised as one theorem; the per-line contracts and the dispatch assertions carry it, and the bounded '
+          'stand-in (5.6 M texts per quick run) checks it end to end.'),
+ 'C04': T('proof', PV + ' + automaton equivalence for the name regex',
+          'The real bodies of substitution._split, substitute and isname are verified, for all strings and all mappings, against '
+          'specification functions written from the statement (split_spec/split_err: the four constructs and the four malformed cases; '
+          'subst_spec: left-to-right fold without rescanning; loop invariant prepend(result, Subst(rest)) == Subst(s), variant '
+          'len(rest)). Exceptional postconditions fix the error class, .source and .name. The regex _name_re is proved (all lengths, '
+          'leftmost-first) to match exactly a letter/underscore start and to end at the maximal munch.',
+          'Assumed: os.getenv(n) is the environment value or None; dict.get; "returned as is" is proved as equality of values, not '
+          'object identity.'),
+ 'C05': T('proof', PV,
+          'handle_define is verified against DefineStep from the statement: name = lower-cased first word, legal substitution name, '
+          'value expanded once with the definitions read so far, accepted iff the name is new or the NEW EXPANDED value equals the '
+          'current one, namespace updated with the expanded value (whole-map postcondition), rejected with the namespace unchanged and '
+          'line/URL set. ZConfigParser.__init__ keeps the defines argument BY REFERENCE and creates a fresh empty namespace only for '
+          'None; handle_include passes the same dict object on; substitute looks names up lower-cased.',
+          'The loader side (top-level parser gets None, included parsers the caller\'s dict: ConfigLoader.includeConfiguration/'
+          '_parse_resource) is not under contract yet; "definitions never carry over between loads" and the include levels are '
+          'decided by the bounded stand-in (all sequences of up to 5 define/use/include items, each run twice).'),
+ 'C06': T('other', PV + ' for the parser side; bounded relational stand-in for the property itself',
+          'Proved code-side clauses: handle_include calls includeConfiguration(current section, urljoin(URL of the including '
+          'resource, expanded argument), the same defines object); every parser starts with its own empty stack, refuses to pop below '
+          'it and ends with it empty. The frame lemma "include = inlining" over the specification is not mechanised and '
+          'ConfigLoader.includeConfiguration is not under contract; the property is decided by the relational stand-in '
+          '(real load of the cut-up files vs real load of the inlined text, 50 000 cases per quick run).',
+          'Assumed: urllib urljoin implements RFC 3986 resolution; file system.'),
+ 'C07': T('other', PV + ' (safety + escape obligations) for cfgparser/substitution; bounded mutation stand-in for the rest',
+          'For the 13 parser functions, substitute/_split and ValueInfo.convert every primitive that can raise an internal error '
+          '(subscripts, unpacking, attribute of None, dict lookup, pop, dynamic getattr dispatch, comparisons with None) is proved '
+          'unable to, and the raises clauses are proved complete: only exceptions of the ConfigurationError family escape. The matcher, '
+          'loader, cmdline and validator functions are not under contract yet; they are covered by the bounded stand-in (230 000 '
+          'mutated texts, override lists and include graphs per quick run).',
+          'Assumed: context/matcher interface contracts raise only ConfigurationError; recursion depth not modelled.'),
+ 'C08': T('proof', PV,
+          'Proved: error() raises ConfigurationSyntaxError carrying the current line and the resource URL; replace() decorates both '
+          'substitution errors with line and URL; handle_key_value, handle_define, start_section and end_section re-raise or translate '
+          'every configuration error with .lineno == current line and .url == resource URL, except that a DataConversionError that '
+          'already has a position (the line of the VALUE that failed) keeps it; the empty form <t/> goes through the same translation '
+          'as </t>; ValueInfo stores the position it is given and convert() raises DataConversionError with exactly that position, '
+          'the value and the original exception. nextline counts lines per resource.',
+          'The matcher side (BaseMatcher.addValue storing the position, constuct\'s placeholders) is assumed through the interface '
+          'contract Sink.addValue and checked by the bounded stand-in (46 000 single-fault injections per quick run).'),
+ 'C09': T('proof', PV + ' + automaton language equivalence for the regex datatypes + binding obligations on the live registry',
+          'Regex datatypes (basic-key, identifier, dotted-name, dotted-suffix, ipaddr-or-hostname): the live pattern under '
+          '"prefix match then compare with the whole string" accepts exactly the specified language and loses no string of its plain '
+          'language - for strings of every length. Function contracts proved for all inputs: RegularExpressionConversion.__call__, '
+          'BasicKeyConversion.__call__ (lower-cased), asBoolean (exactly the six words, any case), integer, '
+          'RangeCheckedConversion.__call__ (in range or ValueError), SuffixMultiplier.__call__ (loop invariant over the suffix '
+          'table), IpaddrOrHostname.__call__. Binding obligations tie these to the stock registry (port range 0..65535, suffix '
+          'tables, default hosts, classes). inet-address, socket-address, timedelta, float, string-list are NOT under contract: '
+          'bounded stand-in only (17 M strings per quick run).',
+          'Assumed: int()/float() grammar is CPython\'s; socket.inet_pton defines valid IPv6. Whether a one-character host name is a '
+          'host name is left open by the statement and is not compared.'),
+ 'C10': T('other', 'bounded stand-in only', BOUNDED_ONLY + ' 110 generated rule-satisfying schema documents, every single '
+          'rule-violating edit at every position, sampled pairs.', 'xml.sax assumed.'),
+ 'C11': T('other', 'bounded stand-in only', BOUNDED_ONLY + ' 1600 composed-vs-expanded scenarios x 40 texts.', 'xml.sax, import system assumed.'),
+ 'C12': T('other', PV + ' for the slot search; bounded stand-in for %import',
+          'Proved: an abstract slot takes a section iff its type name is a key of the slot type\'s implementer table '
+          '(getsectioninfo/slot_case, getsubtype, hassubtype), for a fixed-name slot additionally the looked-up type must carry that '
+          'name; unknown type names are rejected by gettype. The registration side (schema.start_sectiontype), the refusal of the '
+          'abstract type itself (ConfigLoader.startSection) and %import (createDerivedSchema, importSchemaComponent) are not under '
+          'contract: bounded stand-in (46 000 load sequences per quick run). Known finding KF-C12-import-shared is open.',
+          'Import system assumed.'),
+ 'C13': T('other', 'bounded stand-in only', BOUNDED_ONLY + ' Sequences of up to 6 operations against one schema object vs fresh schemas, '
+          'with a structural digest of the schema. Known finding KF-C13-import-shared is open.', ''),
+ 'C14': T('other', 'bounded stand-in only', BOUNDED_ONLY + ' 90 000 (text, overrides) pairs: real load with overrides vs real load of the '
+          'hand-edited text.', ''),
+ 'C15': T('other', PV + ' for the parser-side clauses; bounded relational stand-in for the property',
+          'Proved code-side clauses: lines are stripped, blank/# lines skipped (parse dispatch), section type, name, closer type and '
+          'define names are lower-cased before use, <t/> performs exactly open + close. The specification-level lemmas (rewrites '
+          'commute with Events) are not mechanised; the relational stand-in decides the property (79 000 rewritten texts per quick run).',
+          ''),
+ 'C16': T('other', 'bounded stand-in only', BOUNDED_ONLY + ' 480 000 handler placements / maps per quick run.', ''),
+ 'C17': T('other', 'bounded stand-in only', BOUNDED_ONLY + ' 1.7 M texts: str() + reload must be a fixed point.', ''),
+ 'C18': T('other', 'bounded stand-in only', BOUNDED_ONLY + ' 75 000 loads over directory layouts x four ways of naming the resource; all strings '
+          'to length 6 for the URL helpers.', 'urllib, os.path, file system assumed.'),
+ 'C19': T('other', 'bounded stand-in only (exhaustive fault enumeration)', BOUNDED_ONLY + ' Every single failure point over 4 504 scenarios, exhaustive.',
+          ''),
+ 'C20': T('other', 'bounded stand-in only', BOUNDED_ONLY + ' Level spellings, handler option combinations, 1 706 formats, 2 500 operation histories.',
+          'logging package assumed.'),
 }
 NOT_APPLICABLE = {}
